@@ -662,13 +662,13 @@ func (c *compiler) compile(tok *token) []instruction {
 				if isValue && len(alts) > 1 {
 					one = append(one, instruction{Code: codeLocalGet, A: reg(v)}, instruction{Code: codeEq})
 				}
+				one = c.optimize(one) // before its length is used as a jump distance
 				if k > 0 {
 					// the previous alternatives left their verdict on the stack: keep it if true
 					csStmt = append(csStmt, instruction{Code: codeOr, A: reg(len(one))})
 				}
 				csStmt = append(csStmt, one...)
 			}
-			csStmt = c.optimize(csStmt)
 			c.Begin()
 			csBlock := c.optimize(c.compileAll(cs.Tokens[caseBlock].Tokens))
 			for n, ins := range csBlock {
